@@ -466,8 +466,10 @@ def run(chk):
     common.arg_agreement_rule(chk, P, "C05", [("emit", "src/span.rs"), ("emit", "src/timer.rs"),
                                                ("emit", "src/macro_hooks.rs"), ("emit_macros", "src/span.rs")], 20)
 
-    if chk.tier == "thorough":
+    if True:
         thorough(chk)
+    from . import witness
+    witness.witness_rule(chk, "C05", 5)
     return chk
 
 
